@@ -1,3 +1,919 @@
-From Coq Require Import ZArith List Bool String Lia.
+(* C04 proofs about the model (Model.v): for ALL parameter trees, any nesting depth. *)
+From Coq Require Import ZArith List Bool String Lia Arith.
 Require Import SkV.Lib.Base SkV.C04.Model.
 Import ListNotations.
+Open Scope string_scope.
+Open Scope list_scope.
+
+(* ------------------------------------------------------------------ induction on trees *)
+Section EstInd.
+  Variables (P : est -> Prop) (Q : value -> Prop).
+  Hypothesis HEst : forall cls ps, Forall (fun kvp => Q (snd kvp)) ps -> P (Est cls ps).
+  Hypothesis HAtom : forall a, Q (VAtom a).
+  Hypothesis HVEst : forall e, P e -> Q (VEst e).
+  Hypothesis HSteps : forall l, Forall (fun ne => P (snd ne)) l -> Q (VSteps l).
+
+  Fixpoint est_ind2 (e : est) : P e :=
+    match e with
+    | Est cls ps =>
+        HEst cls ps
+          ((fix go (ps : list (string * value)) : Forall (fun kvp => Q (snd kvp)) ps :=
+              match ps with
+              | [] => Forall_nil _
+              | kvp :: t => Forall_cons kvp (value_ind2 (snd kvp)) (go t)
+              end) ps)
+    end
+  with value_ind2 (v : value) : Q v :=
+    match v with
+    | VAtom a => HAtom a
+    | VEst e => HVEst e (est_ind2 e)
+    | VSteps l =>
+        HSteps l
+          ((fix go (l : list (string * est)) : Forall (fun ne => P (snd ne)) l :=
+              match l with
+              | [] => Forall_nil _
+              | ne :: t => Forall_cons ne (est_ind2 (snd ne)) (go t)
+              end) l)
+    end.
+End EstInd.
+
+(* ------------------------------------------------------------------ small list lemmas *)
+Lemma assoc_v_put_same k v ps : assoc_v k ps <> None -> assoc_v k (put_v k v ps) = Some v.
+Proof.
+  induction ps as [|[k' v'] t IH]; cbn; [congruence|].
+  destruct (String.eqb k' k) eqn:E; cbn; rewrite E; [reflexivity|exact IH].
+Qed.
+
+Lemma assoc_v_put_other k k' v ps : k' <> k -> assoc_v k' (put_v k v ps) = assoc_v k' ps.
+Proof.
+  intro Hne. induction ps as [|[k2 v2] t IH]; cbn; [reflexivity|].
+  destruct (String.eqb k2 k) eqn:E; cbn.
+  - apply String.eqb_eq in E. subst k2.
+    destruct (String.eqb k k') eqn:E2; [apply String.eqb_eq in E2; congruence|reflexivity].
+  - destruct (String.eqb k2 k'); [reflexivity|exact IH].
+Qed.
+
+Lemma put_v_same k v ps : assoc_v k ps = Some v -> put_v k v ps = ps.
+Proof.
+  induction ps as [|[k' v'] t IH]; cbn; [reflexivity|].
+  destruct (String.eqb k' k) eqn:E.
+  - intro H. injection H as ->. reflexivity.
+  - intro H. rewrite (IH H). reflexivity.
+Qed.
+
+Lemma assoc_e_put_same k c l : assoc_e k l <> None -> assoc_e k (put_e k c l) = Some c.
+Proof.
+  induction l as [|[k' c'] t IH]; cbn; [congruence|].
+  destruct (String.eqb k' k) eqn:E; cbn; rewrite E; [reflexivity|exact IH].
+Qed.
+
+Lemma assoc_e_put_other k k' c l : k' <> k -> assoc_e k' (put_e k c l) = assoc_e k' l.
+Proof.
+  intro Hne. induction l as [|[k2 c2] t IH]; cbn; [reflexivity|].
+  destruct (String.eqb k2 k) eqn:E; cbn.
+  - apply String.eqb_eq in E. subst k2.
+    destruct (String.eqb k k') eqn:E2; [apply String.eqb_eq in E2; congruence|reflexivity].
+  - destruct (String.eqb k2 k'); [reflexivity|exact IH].
+Qed.
+
+Lemma put_e_same k c l : assoc_e k l = Some c -> put_e k c l = l.
+Proof.
+  induction l as [|[k' c'] t IH]; cbn; [reflexivity|].
+  destruct (String.eqb k' k) eqn:E.
+  - intro H. injection H as ->. reflexivity.
+  - intro H. rewrite (IH H). reflexivity.
+Qed.
+
+Lemma map_fst_put_v k v ps : map fst (put_v k v ps) = map fst ps.
+Proof.
+  induction ps as [|[k' v'] t IH]; cbn; [reflexivity|].
+  destruct (String.eqb k' k); cbn; [reflexivity|now rewrite IH].
+Qed.
+
+Lemma map_fst_put_e k c l : map fst (put_e k c l) = map fst l.
+Proof.
+  induction l as [|[k' c'] t IH]; cbn; [reflexivity|].
+  destruct (String.eqb k' k); cbn; [reflexivity|now rewrite IH].
+Qed.
+
+Lemma smem_In x l : smem x l = true <-> In x l.
+Proof.
+  unfold smem. rewrite existsb_exists. split.
+  - intros [y [Hin H]]. apply String.eqb_eq in H. subst. exact Hin.
+  - intro H. exists x. split; [exact H|apply String.eqb_refl].
+Qed.
+
+Lemma assoc_v_In_names k ps : assoc_v k ps <> None <-> In k (map fst ps).
+Proof.
+  induction ps as [|[k' v'] t IH]; cbn; [tauto|].
+  destruct (String.eqb k' k) eqn:E.
+  - apply String.eqb_eq in E. subst. split; [auto|congruence].
+  - apply String.eqb_neq in E. rewrite IH. split; [auto|]. intros [H|H]; [congruence|exact H].
+Qed.
+
+Lemma assoc_e_In_names k l : assoc_e k l <> None <-> In k (map fst l).
+Proof.
+  induction l as [|[k' v'] t IH]; cbn; [tauto|].
+  destruct (String.eqb k' k) eqn:E.
+  - apply String.eqb_eq in E. subst. split; [auto|congruence].
+  - apply String.eqb_neq in E. rewrite IH. split; [auto|]. intros [H|H]; [congruence|exact H].
+Qed.
+
+Lemma path_eqb_refl p : path_eqb p p = true.
+Proof. induction p as [|x t IH]; cbn; [reflexivity|]. now rewrite String.eqb_refl, IH. Qed.
+
+Lemma path_eqb_eq p q : path_eqb p q = true <-> p = q.
+Proof.
+  revert q. induction p as [|x t IH]; destruct q as [|y u]; cbn; try (split; congruence).
+  rewrite andb_true_iff, String.eqb_eq, IH. split; [intros [-> ->]; reflexivity|].
+  intro H. injection H as -> ->. auto.
+Qed.
+
+(* ------------------------------------------------------------------ decidable equality is equality *)
+Lemma atom_eqb_eq a b : atom_eqb a b = true <-> a = b.
+Proof.
+  destruct a, b; cbn; try (split; congruence).
+  - rewrite Z.eqb_eq. split; congruence.
+  - rewrite String.eqb_eq. split; congruence.
+Qed.
+
+Lemma est_eqb_eq : forall a b, est_eqb a b = true <-> a = b.
+Proof.
+  apply (est_ind2 (fun a => forall b, est_eqb a b = true <-> a = b)
+                  (fun v => forall w, value_eqb v w = true <-> v = w)).
+  - intros cls ps IH [cls2 ps2]. cbn [est_eqb]. rewrite andb_true_iff, String.eqb_eq.
+    assert (Hgo : forall l2,
+      (fix go (l1 l2 : list (string * value)) : bool :=
+         match l1, l2 with
+         | [], [] => true
+         | (k1, v1) :: t1, (k2, v2) :: t2 => String.eqb k1 k2 && value_eqb v1 v2 && go t1 t2
+         | _, _ => false
+         end) ps l2 = true <-> ps = l2).
+    { induction IH as [|[k1 v1] t1 Hv _ IHt]; intros [|[k2 v2] t2]; try (split; congruence).
+      cbn [snd] in Hv. rewrite !andb_true_iff, String.eqb_eq, (Hv v2), IHt.
+      split; [intros [[-> ->] ->]; reflexivity|]. intro H. injection H as -> -> ->. auto. }
+    rewrite Hgo. split; [intros [-> ->]; reflexivity|]. intro H. injection H as -> ->. auto.
+  - intros a [b| |]; cbn; try (split; congruence). rewrite atom_eqb_eq. split; congruence.
+  - intros e IH [|e2|]; cbn; try (split; congruence). rewrite IH. split; congruence.
+  - intros l IH [| |l2]; try (cbn; split; congruence). cbn [value_eqb].
+    assert (Hgo : forall l2,
+      (fix go (l1 l2 : list (string * est)) : bool :=
+         match l1, l2 with
+         | [], [] => true
+         | (k1, e1) :: t1, (k2, e2) :: t2 => String.eqb k1 k2 && est_eqb e1 e2 && go t1 t2
+         | _, _ => false
+         end) l l2 = true <-> l = l2).
+    { clear l2. induction IH as [|[k1 e1] t1 He _ IHt]; intros [|[k2 e2] t2]; try (split; congruence).
+      cbn [snd] in He. rewrite !andb_true_iff, String.eqb_eq, (He e2), IHt.
+      split; [intros [[-> ->] ->]; reflexivity|]. intro H. injection H as -> -> ->. auto. }
+    rewrite Hgo. split; congruence.
+Qed.
+
+(* ------------------------------------------------------------------ clone *)
+Lemma clone_est_id : forall e, clone_est e = e.
+Proof.
+  apply (est_ind2 (fun e => clone_est e = e)
+                  (fun v => match v with
+                            | VAtom a => True
+                            | VEst c => clone_est c = c
+                            | VSteps l => map (fun ne : string * est => (fst ne, clone_est (snd ne))) l = l
+                            end)).
+  - intros cls ps IH. cbn [clone_est]. unfold construct. f_equal.
+    induction IH as [|[k v] t Hv _ IHt]; cbn [map]; [reflexivity|]. rewrite IHt. f_equal.
+    cbn [fst snd] in *. destruct v as [a|c|l]; cbn; [reflexivity| |]; now rewrite Hv.
+  - intros; exact I.
+  - intros e H. exact H.
+  - intros l IH. induction IH as [|[n c] t Hc _ IHt]; cbn [map]; [reflexivity|].
+    cbn [fst snd] in *. now rewrite Hc, IHt.
+Qed.
+
+Section WithMeta.
+Variable meta : meta_info.
+
+(* ------------------------------------------------------------------ get_params after construction *)
+Lemma get_after_construct cls args :
+  get_params meta false (construct cls args) = map (fun kvp => ([fst kvp], snd kvp)) args.
+Proof.
+  unfold construct. cbn [get_params]. induction args as [|[k v] t IH]; cbn [flat_map map]; [reflexivity|].
+  rewrite IH. cbn [fst snd]. destruct v as [a|c|l]; cbn; reflexivity.
+Qed.
+
+Lemma get_deep_contains_args cls args k v :
+  In (k, v) args -> In ([k], v) (get_params meta true (construct cls args)).
+Proof.
+  unfold construct. cbn [get_params]. intro Hin. apply in_flat_map. exists (k, v). split; [exact Hin|].
+  destruct v as [a|c|l]; cbn.
+  - left; reflexivity.
+  - apply in_or_app. right. left. reflexivity.
+  - left; reflexivity.
+Qed.
+
+(* every key of get_params is a non-empty path *)
+Lemma get_params_paths_nonempty : forall e deep x, In x (get_params meta deep e) -> fst x <> [].
+Proof.
+  intros [cls ps] deep x. cbn [get_params]. rewrite in_flat_map. intros [[k v] [_ Hx]].
+  destruct v as [a|c|l].
+  - destruct Hx as [<-|[]]. cbn. congruence.
+  - apply in_app_or in Hx. destruct Hx as [Hx|[<-|[]]]; [|cbn; congruence].
+    destruct deep; [|destruct Hx]. apply in_map_iff in Hx. destruct Hx as [y [<- _]]. cbn. congruence.
+  - destruct Hx as [<-|Hx]; [cbn; congruence|].
+    destruct (deep && is_steps_param meta cls k); [|destruct Hx].
+    apply in_app_or in Hx. destruct Hx as [Hx|Hx].
+    + apply in_map_iff in Hx. destruct Hx as [y [<- _]]. cbn. congruence.
+    + apply in_flat_map in Hx. destruct Hx as [ne [_ Hx]]. apply in_map_iff in Hx.
+      destruct Hx as [y [<- _]]. cbn. congruence.
+Qed.
+
+(* ------------------------------------------------------------------ reading one key structurally *)
+(* get_params(deep=True)[p] read along the path: a component name shadows a parameter of the same
+   name (dict.update in _get_params) *)
+Fixpoint get_path (p : path) (e : est) : option value :=
+  match p with
+  | [] => None
+  | [k] => match assoc_e k (steps_of meta e) with
+           | Some c => Some (VEst c)
+           | None => assoc_v k (params_of e)
+           end
+  | h :: rest => match component meta e h with
+                 | Some c => get_path rest c
+                 | None => None
+                 end
+  end.
+
+Lemma steps_of_set_steps e l :
+  steps_of meta e <> [] -> steps_of meta (set_steps meta e l) = l.
+Proof.
+  destruct e as [cls ps]. unfold steps_of, set_steps, steps_param. cbn [cls_of params_of].
+  destruct (meta cls) as [[a sp]|] eqn:Em; [|congruence].
+  destruct (assoc_v sp ps) as [v|] eqn:E; [|congruence]. intros _.
+  cbn [set_attr cls_of params_of]. rewrite Em. rewrite assoc_v_put_same; congruence.
+Qed.
+
+Lemma assoc_e_nonempty k (l : list (string * est)) c : assoc_e k l = Some c -> l <> [].
+Proof. destruct l; cbn; congruence. Qed.
+
+Lemma set_steps_params_other e l k :
+  ~ (is_steps_param meta (cls_of e) k = true) ->
+  assoc_v k (params_of (set_steps meta e l)) = assoc_v k (params_of e).
+Proof.
+  destruct e as [cls ps]. unfold set_steps, is_steps_param, steps_param. cbn [cls_of].
+  destruct (meta cls) as [[a sp]|]; [|reflexivity]. intro H. cbn [set_attr params_of].
+  apply assoc_v_put_other. intro Heq. apply H. subst. apply String.eqb_refl.
+Qed.
+
+Lemma cls_of_set_attr e k v : cls_of (set_attr e k v) = cls_of e.
+Proof. destruct e; reflexivity. Qed.
+
+Lemma cls_of_set_steps e l : cls_of (set_steps meta e l) = cls_of e.
+Proof. destruct e as [c ps]. unfold set_steps. cbn. destruct (steps_param meta c); reflexivity. Qed.
+
+(* a component name is never the name of the parameter holding the components, when it is found
+   as a component (assoc_v on it is None) *)
+Lemma component_put e h c c' :
+  component meta e h = Some c -> component meta (put_component meta e h c') h = Some c'.
+Proof.
+  unfold component, put_component. destruct e as [cls ps]. cbn [params_of].
+  destruct (assoc_v h ps) as [v|] eqn:E.
+  - destruct v as [a|c0|l]; try discriminate. intros _. cbn [set_attr params_of].
+    rewrite assoc_v_put_same; [reflexivity|congruence].
+  - intro Hs. pose proof (assoc_e_nonempty _ _ _ Hs) as Hne.
+    assert (Hnsp : ~ (is_steps_param meta (cls_of (Est cls ps)) h = true)).
+    { unfold is_steps_param, steps_param. cbn [cls_of]. unfold steps_of, steps_param in Hne. cbn in Hne.
+      destruct (meta cls) as [[a sp]|]; [|congruence]. intro Heq. apply String.eqb_eq in Heq. subst sp.
+      rewrite E in Hne. congruence. }
+    pose proof (set_steps_params_other (Est cls ps) (put_e h c' (steps_of meta (Est cls ps))) h Hnsp) as H1.
+    cbn [params_of] in H1. destruct (set_steps meta (Est cls ps) _) as [cls' ps'] eqn:Es.
+    cbn [params_of] in *. rewrite H1, E.
+    rewrite <- Es, steps_of_set_steps by exact Hne. apply assoc_e_put_same. congruence.
+Qed.
+
+(* ------------------------------------------------------------------ one assignment at any depth *)
+Lemma max_len_single (p : path) (v : value) : max_len [(p, v)] = List.length p.
+Proof. unfold max_len. cbn. lia. Qed.
+
+Lemma nodup_s_single h : nodup_s [h] [] = [h].
+Proof. reflexivity. Qed.
+
+Lemma set_params_fuel_S f e kvs :
+  set_params_fuel meta (S f) e kvs =
+  (let (e1, kvs1) := meta_step1 meta e kvs in
+   match meta_step2 meta e1 kvs1 with
+   | Err => Err
+   | Ok (e2, kvs2) => plain_phase meta (set_params_fuel meta f) e2 kvs2
+   end).
+Proof. reflexivity. Qed.
+
+Lemma plain_single_flat rec e k v :
+  plain_phase meta rec e [([k], v)] =
+  if smem k (valid_heads meta e) then Ok (set_attr e k v) else Err.
+Proof.
+  unfold plain_phase. cbn [forallb fst]. rewrite andb_true_r.
+  destruct (smem k (valid_heads meta e)); reflexivity.
+Qed.
+
+Lemma plain_single_nested rec e h r rest v :
+  plain_phase meta rec e [(h :: r :: rest, v)] =
+  if smem h (valid_heads meta e) then
+    match component meta e h with
+    | Some c => match rec c [(r :: rest, v)] with
+                | Ok c' => Ok (put_component meta e h c')
+                | Err => Err
+                end
+    | None => Err
+    end
+  else Err.
+Proof.
+  unfold plain_phase. cbn [forallb fst]. rewrite andb_true_r.
+  destruct (smem h (valid_heads meta e)); [|reflexivity].
+  cbn [fold_left is_flat fst]. unfold nested_heads.
+  cbn [filter is_flat fst negb map head_of nodup_s smem existsb fold_left].
+  destruct (component meta e h) as [c|]; [|reflexivity].
+  unfold subs. cbn [flat_map fst snd tl]. rewrite String.eqb_refl. reflexivity.
+Qed.
+
+(* unfolding set_params on a single nested assignment h__rest = v *)
+Lemma set_single_nested e h r rest v :
+  set_params meta e [(h :: r :: rest, v)] =
+  if smem h (valid_heads meta e) then
+    match component meta e h with
+    | Some c => match set_params meta c [(r :: rest, v)] with
+                | Ok c' => Ok (put_component meta e h c')
+                | Err => Err
+                end
+    | None => Err
+    end
+  else Err.
+Proof.
+  unfold set_params at 1. rewrite max_len_single. cbn [List.length]. rewrite set_params_fuel_S.
+  assert (H1 : meta_step1 meta e [(h :: r :: rest, v)] = (e, [(h :: r :: rest, v)])).
+  { unfold meta_step1. destruct (meta (cls_of e)) as [[a sp]|]; [|reflexivity].
+    cbn [lookup path_eqb fst]. rewrite andb_false_r. reflexivity. }
+  rewrite H1.
+  assert (H2 : meta_step2 meta e [(h :: r :: rest, v)] = Ok (e, [(h :: r :: rest, v)])).
+  { unfold meta_step2. destruct (meta (cls_of e)); reflexivity. }
+  rewrite H2. rewrite plain_single_nested.
+  unfold set_params. rewrite max_len_single. cbn [List.length]. reflexivity.
+Qed.
+
+(* unfolding set_params on a single flat assignment k = v *)
+Lemma set_single_flat e k v :
+  set_params meta e [([k], v)] =
+  match meta (cls_of e) with
+  | Some (akey, _) =>
+      match (if String.eqb akey k then match v with VSteps l => Some l | _ => None end else None) with
+      | Some l => Ok (set_steps meta e l)
+      | None =>
+          if smem k (step_names meta e) then
+            match v with
+            | VEst c => Ok (set_steps meta e (put_e k c (steps_of meta e)))
+            | _ => Err
+            end
+          else if smem k (valid_heads meta e) then Ok (set_attr e k v) else Err
+      end
+  | None => if smem k (valid_heads meta e) then Ok (set_attr e k v) else Err
+  end.
+Proof.
+  unfold set_params. rewrite max_len_single. cbn [List.length]. rewrite set_params_fuel_S.
+  unfold meta_step1, meta_step2.
+  destruct (meta (cls_of e)) as [[akey sp]|] eqn:Em.
+  - cbn [lookup path_eqb fst]. rewrite andb_true_r. rewrite (String.eqb_sym k akey).
+    destruct (String.eqb akey k) eqn:Ek.
+    + destruct v as [a|c|l].
+      * rewrite Em. cbn [fold_left is_flat fst head_of snd andb].
+        destruct (smem k (step_names meta e)); [reflexivity|]. cbn [app].
+        apply plain_single_flat.
+      * rewrite Em. cbn [fold_left is_flat fst head_of snd andb].
+        destruct (smem k (step_names meta e)); [reflexivity|]. cbn [app].
+        apply plain_single_flat.
+      * cbn [filter fst path_eqb negb]. rewrite (String.eqb_sym k akey), Ek. cbn [andb negb].
+        rewrite cls_of_set_steps, Em. cbn [fold_left]. reflexivity.
+    + rewrite Em. cbn [fold_left is_flat fst head_of snd andb].
+      destruct (smem k (step_names meta e)).
+      * destruct v; reflexivity.
+      * cbn [app]. apply plain_single_flat.
+  - rewrite Em. apply plain_single_flat.
+Qed.
+
+(* ------------------------------------------------------------------ well-formedness *)
+Lemma nodupb_NoDup l : nodupb l = true <-> NoDup l.
+Proof.
+  induction l as [|x t IH]; cbn; [split; [constructor|reflexivity]|].
+  rewrite andb_true_iff, negb_true_iff, IH. split.
+  - intros [H1 H2]. constructor; [|exact H2]. intro Hin. apply smem_In in Hin. congruence.
+  - intro H. inversion H as [|? ? Hn Hd]; subst. split; [|exact Hd].
+    destruct (smem x t) eqn:E; [apply smem_In in E; contradiction|reflexivity].
+Qed.
+
+Lemma assoc_v_In k v ps : assoc_v k ps = Some v -> In (k, v) ps.
+Proof.
+  induction ps as [|[k' v'] t IH]; cbn; [congruence|].
+  destruct (String.eqb k' k) eqn:E.
+  - apply String.eqb_eq in E. subst. intro H. injection H as ->. left; reflexivity.
+  - intro H. right. exact (IH H).
+Qed.
+
+Lemma assoc_e_In k c l : assoc_e k l = Some c -> In (k, c) l.
+Proof.
+  induction l as [|[k' c'] t IH]; cbn; [congruence|].
+  destruct (String.eqb k' k) eqn:E.
+  - apply String.eqb_eq in E. subst. intro H. injection H as ->. left; reflexivity.
+  - intro H. right. exact (IH H).
+Qed.
+
+Lemma wf_unfold e :
+  wf meta e = wf_here meta e &&
+              forallb (fun kvp : string * value =>
+                         match snd kvp with
+                         | VAtom _ => true
+                         | VEst c => wf meta c
+                         | VSteps l => forallb (fun ne : string * est => wf meta (snd ne)) l
+                         end) (params_of e).
+Proof. destruct e; reflexivity. Qed.
+
+Lemma wf_component e h c : wf meta e = true -> component meta e h = Some c -> wf meta c = true.
+Proof.
+  rewrite wf_unfold, andb_true_iff. intros [_ Hall] Hc. rewrite forallb_forall in Hall.
+  unfold component in Hc. destruct (assoc_v h (params_of e)) as [v|] eqn:E.
+  - destruct v as [a|c0|l]; try discriminate. injection Hc as ->.
+    exact (Hall _ (assoc_v_In _ _ _ E)).
+  - unfold steps_of in Hc. destruct (steps_param meta (cls_of e)) as [sp|]; [|discriminate].
+    destruct (assoc_v sp (params_of e)) as [[a|c0|l]|] eqn:E2; try discriminate.
+    pose proof (Hall _ (assoc_v_In _ _ _ E2)) as Hl. cbn [snd] in Hl. rewrite forallb_forall in Hl.
+    exact (Hl _ (assoc_e_In _ _ _ Hc)).
+Qed.
+
+(* component names never shadow parameters in a well-formed tree *)
+Lemma wf_here_step_not_param e n :
+  wf_here meta e = true -> In n (step_names meta e) -> ~ In n (param_names e).
+Proof.
+  unfold wf_here. rewrite andb_true_iff. intros [_ H] Hin.
+  unfold step_names, steps_of, steps_param in *.
+  destruct (meta (cls_of e)) as [[a sp]|]; [|destruct Hin].
+  rewrite !andb_true_iff in H. destruct H as [[[_ _] H] _]. rewrite forallb_forall in H.
+  specialize (H n Hin). rewrite negb_true_iff in H. intro Hp. apply smem_In in Hp. congruence.
+Qed.
+
+Lemma param_names_set_attr e k v : param_names (set_attr e k v) = param_names e.
+Proof. destruct e as [c ps]. unfold param_names. cbn. apply map_fst_put_v. Qed.
+
+Lemma param_names_set_steps e l : param_names (set_steps meta e l) = param_names e.
+Proof.
+  destruct e as [c ps]. unfold set_steps. cbn [cls_of]. destruct (steps_param meta c); [|reflexivity].
+  apply param_names_set_attr.
+Qed.
+
+Lemma In_valid_heads e k : In k (valid_heads meta e) <-> In k (param_names e) \/ In k (step_names meta e).
+Proof. unfold valid_heads. apply in_app_iff. Qed.
+
+(* the key is a public one: not the private alias under which _set_params looks for the list *)
+Fixpoint public_key (p : path) (e : est) : Prop :=
+  match p with
+  | [] => True
+  | [k] => forall a sp, meta (cls_of e) = Some (a, sp) -> a = sp \/ k <> a
+  | h :: rest => forall c, component meta e h = Some c -> public_key rest c
+  end.
+
+(* ------------------------------------------------------------------ lens law 1: get after set *)
+Lemma get_after_set_flat e k v e' :
+  set_params meta e [([k], v)] = Ok e' -> wf_here meta e' = true -> public_key [k] e ->
+  get_path [k] e' = Some v.
+Proof.
+  rewrite set_single_flat. intros Hset Hwf Hpub. cbn [get_path public_key] in *.
+  assert (Hplain : smem k (step_names meta e) = false -> smem k (valid_heads meta e) = true ->
+                   e' = set_attr e k v ->
+                   match assoc_e k (steps_of meta e') with
+                   | Some c => Some (VEst c)
+                   | None => assoc_v k (params_of e')
+                   end = Some v).
+  { intros Hns Hv ->. apply smem_In, In_valid_heads in Hv.
+    destruct Hv as [Hv|Hv]; [|apply smem_In in Hv; congruence].
+    destruct (assoc_e k (steps_of meta (set_attr e k v))) as [c|] eqn:Ec.
+    - exfalso. assert (Hin : In k (step_names meta (set_attr e k v))).
+      { unfold step_names. apply assoc_e_In_names. congruence. }
+      apply (wf_here_step_not_param _ _ Hwf Hin). rewrite param_names_set_attr. exact Hv.
+    - destruct e as [c ps]. cbn [set_attr params_of]. apply assoc_v_put_same.
+      apply assoc_v_In_names. exact Hv. }
+  destruct (meta (cls_of e)) as [[akey sp]|] eqn:Em.
+  - destruct (String.eqb akey k) eqn:Ek.
+    + apply String.eqb_eq in Ek. subst akey.
+      destruct v as [a|c|l].
+      * destruct (smem k (step_names meta e)) eqn:Hs; [discriminate|].
+        destruct (smem k (valid_heads meta e)) eqn:Hv; [|discriminate]. injection Hset as <-. auto.
+      * destruct (smem k (step_names meta e)) eqn:Hs.
+        -- injection Hset as <-. apply smem_In in Hs.
+           assert (Hne : steps_of meta e <> []).
+           { unfold step_names in Hs. destruct (steps_of meta e); [destruct Hs|congruence]. }
+           rewrite steps_of_set_steps by exact Hne.
+           rewrite assoc_e_put_same; [reflexivity|]. apply assoc_e_In_names. exact Hs.
+        -- destruct (smem k (valid_heads meta e)) eqn:Hv; [|discriminate]. injection Hset as <-. auto.
+      * (* the whole list *)
+        injection Hset as <-. destruct (Hpub k sp eq_refl) as [<-|Hne]; [|congruence].
+        (* k = sp is a parameter of e' (wf), hence not a component name *)
+        assert (Hp : In k (param_names (set_steps meta e l))).
+        { unfold wf_here in Hwf. rewrite andb_true_iff in Hwf. destruct Hwf as [_ Hwf].
+          rewrite cls_of_set_steps, Em in Hwf. rewrite !andb_true_iff in Hwf.
+          destruct Hwf as [[[Hpres _] _] _]. unfold param_names. apply assoc_v_In_names.
+          destruct (assoc_v k (params_of (set_steps meta e l))); congruence. }
+        destruct (assoc_e k (steps_of meta (set_steps meta e l))) as [c|] eqn:Ec.
+        -- exfalso. apply (wf_here_step_not_param _ k Hwf); [|exact Hp].
+           unfold step_names. apply assoc_e_In_names. congruence.
+        -- rewrite param_names_set_steps in Hp. destruct e as [cls ps]. unfold set_steps, steps_param.
+           cbn [cls_of] in *. rewrite Em. cbn [set_attr params_of]. apply assoc_v_put_same.
+           apply assoc_v_In_names. exact Hp.
+    + destruct (smem k (step_names meta e)) eqn:Hs.
+      * destruct v as [a|c|l]; try discriminate. injection Hset as <-. apply smem_In in Hs.
+        assert (Hne : steps_of meta e <> []).
+        { unfold step_names in Hs. destruct (steps_of meta e); [destruct Hs|congruence]. }
+        rewrite steps_of_set_steps by exact Hne.
+        rewrite assoc_e_put_same; [reflexivity|]. apply assoc_e_In_names. exact Hs.
+      * destruct (smem k (valid_heads meta e)) eqn:Hv; [|discriminate]. injection Hset as <-. auto.
+  - destruct (smem k (valid_heads meta e)) eqn:Hv; [|discriminate]. injection Hset as <-.
+    apply Hplain; [|reflexivity|reflexivity].
+    unfold step_names, steps_of, steps_param. rewrite Em. reflexivity.
+Qed.
+
+Theorem get_after_set : forall (p : list string) e v e',
+  set_params meta e [(p, v)] = Ok e' -> wf meta e' = true -> public_key p e ->
+  get_path p e' = Some v.
+Proof.
+  induction p as [|h rest IH]; intros e v e' Hset Hwf Hpub.
+  - (* the empty key is rejected *)
+    exfalso. unfold set_params in Hset. rewrite max_len_single in Hset. cbn [List.length] in Hset.
+    rewrite set_params_fuel_S in Hset.
+    unfold meta_step1, meta_step2 in Hset.
+    destruct (meta (cls_of e)) as [[a sp]|] eqn:Em; cbn [lookup path_eqb fst] in Hset;
+      try rewrite Em in Hset; cbn in Hset; discriminate.
+  - destruct rest as [|r rest].
+    + apply (get_after_set_flat e h v e' Hset); [|exact Hpub].
+      rewrite wf_unfold, andb_true_iff in Hwf. tauto.
+    + rewrite set_single_nested in Hset.
+      destruct (smem h (valid_heads meta e)); [|discriminate].
+      destruct (component meta e h) as [c|] eqn:Ec; [|discriminate].
+      destruct (set_params meta c [(r :: rest, v)]) as [c'|] eqn:Es; [|discriminate].
+      injection Hset as <-.
+      change (get_path (h :: r :: rest) (put_component meta e h c'))
+        with (match component meta (put_component meta e h c') h with
+              | Some c0 => get_path (r :: rest) c0
+              | None => None
+              end).
+      pose proof (component_put e h c c' Ec) as Hc. rewrite Hc.
+      apply (IH c v c' Es).
+      * exact (wf_component _ _ _ Hwf Hc).
+      * cbn [public_key] in Hpub. exact (Hpub c Ec).
+Qed.
+
+(* ------------------------------------------------------------------ lens law 2: set what is there *)
+Lemma set_attr_same e k v : assoc_v k (params_of e) = Some v -> set_attr e k v = e.
+Proof. destruct e as [c ps]. cbn. intro H. now rewrite put_v_same. Qed.
+
+Lemma set_steps_same e : steps_of meta e <> [] -> set_steps meta e (steps_of meta e) = e.
+Proof.
+  unfold steps_of, set_steps. destruct (steps_param meta (cls_of e)) as [sp|]; [|congruence].
+  destruct (assoc_v sp (params_of e)) as [[a|c|l]|] eqn:E; try congruence. intros _.
+  now apply set_attr_same.
+Qed.
+
+Lemma put_component_same e h c : component meta e h = Some c -> put_component meta e h c = e.
+Proof.
+  unfold component, put_component. destruct (assoc_v h (params_of e)) as [v|] eqn:E.
+  - destruct v as [a|c0|l]; try discriminate. intro H. injection H as ->. now apply set_attr_same.
+  - intro H. rewrite (put_e_same _ _ _ H). apply set_steps_same. eapply assoc_e_nonempty; eauto.
+Qed.
+
+Lemma component_valid_head e h c : component meta e h = Some c -> smem h (valid_heads meta e) = true.
+Proof.
+  unfold component. intro H. apply smem_In, In_valid_heads.
+  destruct (assoc_v h (params_of e)) as [v|] eqn:E.
+  - left. unfold param_names. apply assoc_v_In_names. congruence.
+  - right. unfold step_names. apply assoc_e_In_names. congruence.
+Qed.
+
+Lemma set_same_flat e k v :
+  wf_here meta e = true -> get_path [k] e = Some v -> set_params meta e [([k], v)] = Ok e.
+Proof.
+  intros Hwf Hget. cbn [get_path] in Hget. rewrite set_single_flat.
+  destruct (assoc_e k (steps_of meta e)) as [c|] eqn:Ec.
+  - (* k names a component *)
+    injection Hget as <-.
+    assert (Hs : smem k (step_names meta e) = true).
+    { apply smem_In. unfold step_names. apply assoc_e_In_names. congruence. }
+    assert (Hst : set_steps meta e (put_e k c (steps_of meta e)) = e).
+    { rewrite (put_e_same _ _ _ Ec). apply set_steps_same. eapply assoc_e_nonempty; eauto. }
+    destruct (meta (cls_of e)) as [[akey sp]|] eqn:Em.
+    + destruct (String.eqb akey k); rewrite Hs, Hst; reflexivity.
+    + unfold steps_of, steps_param in Ec. rewrite Em in Ec. discriminate.
+  - assert (Hs : smem k (step_names meta e) = false).
+    { destruct (smem k (step_names meta e)) eqn:E; [|reflexivity]. apply smem_In in E.
+      unfold step_names in E. apply assoc_e_In_names in E. congruence. }
+    assert (Hv : smem k (valid_heads meta e) = true).
+    { apply smem_In, In_valid_heads. left. unfold param_names. apply assoc_v_In_names. congruence. }
+    destruct (meta (cls_of e)) as [[akey sp]|] eqn:Em.
+    + destruct (String.eqb akey k) eqn:Ek.
+      * apply String.eqb_eq in Ek. subst akey. destruct v as [a|c|l].
+        -- rewrite Hs, Hv. now rewrite set_attr_same.
+        -- rewrite Hs, Hv. now rewrite set_attr_same.
+        -- (* the whole list, unchanged: k must be the list parameter itself *)
+           unfold wf_here in Hwf. rewrite Em in Hwf. rewrite !andb_true_iff in Hwf.
+           destruct Hwf as [_ [_ Hk]]. rewrite orb_true_iff in Hk. destruct Hk as [Hk|Hk].
+           ++ apply String.eqb_eq in Hk. subst sp. unfold set_steps, steps_param. rewrite Em.
+              now rewrite set_attr_same.
+           ++ rewrite negb_true_iff in Hk. congruence.
+      * rewrite Hs, Hv. now rewrite set_attr_same.
+    + rewrite Hv. now rewrite set_attr_same.
+Qed.
+
+Theorem set_same_is_noop : forall (p : list string) e v,
+  wf meta e = true -> get_path p e = Some v -> set_params meta e [(p, v)] = Ok e.
+Proof.
+  induction p as [|h rest IH]; intros e v Hwf Hget; [discriminate|].
+  destruct rest as [|r rest].
+  - apply set_same_flat; [|exact Hget]. rewrite wf_unfold, andb_true_iff in Hwf. tauto.
+  - rewrite set_single_nested.
+    change (get_path (h :: r :: rest) e)
+      with (match component meta e h with Some c => get_path (r :: rest) c | None => None end) in Hget.
+    destruct (component meta e h) as [c|] eqn:Ec; [|discriminate].
+    rewrite (component_valid_head _ _ _ Ec).
+    rewrite (IH c v (wf_component _ _ _ Hwf Ec) Hget). now rewrite put_component_same.
+Qed.
+
+(* ------------------------------------------------------------------ lens law 3: frame *)
+(* the two keys do not overlap: different heads that do not address the component list as a whole,
+   or the same component and non-overlapping keys below it *)
+Definition list_key (cls k : string) : bool :=
+  match meta cls with
+  | Some (a, sp) => String.eqb a k || String.eqb sp k
+  | None => false
+  end.
+
+Fixpoint indep (p q : path) (e : est) : Prop :=
+  match p, q with
+  | h :: rp, h' :: rq =>
+      if String.eqb h h' then
+        rp <> [] /\ rq <> [] /\
+        match component meta e h with Some c => indep rp rq c | None => False end
+      else list_key (cls_of e) h = false /\ list_key (cls_of e) h' = false
+  | _, _ => False
+  end.
+
+Lemma list_key_steps_param cls k : list_key cls k = false -> is_steps_param meta cls k = false.
+Proof.
+  unfold list_key, is_steps_param, steps_param. destruct (meta cls) as [[a sp]|]; [|reflexivity].
+  rewrite orb_false_iff. tauto.
+Qed.
+
+Lemma steps_of_set_attr_other e k v :
+  is_steps_param meta (cls_of e) k = false -> steps_of meta (set_attr e k v) = steps_of meta e.
+Proof.
+  destruct e as [cls ps]. unfold steps_of, is_steps_param. cbn [cls_of set_attr params_of].
+  destruct (steps_param meta cls) as [sp|]; [|reflexivity]. intro H. apply String.eqb_neq in H.
+  rewrite assoc_v_put_other by congruence. reflexivity.
+Qed.
+
+(* reading a key whose head is h' after a change confined to head h <> h' *)
+Lemma get_path_set_attr_other e k v h' rq :
+  h' <> k -> is_steps_param meta (cls_of e) k = false ->
+  get_path (h' :: rq) (set_attr e k v) = get_path (h' :: rq) e.
+Proof.
+  intros Hne Hk.
+  assert (Hs : steps_of meta (set_attr e k v) = steps_of meta e) by (now apply steps_of_set_attr_other).
+  assert (Hp : assoc_v h' (params_of (set_attr e k v)) = assoc_v h' (params_of e)).
+  { destruct e as [c ps]. cbn. now apply assoc_v_put_other. }
+  destruct rq as [|r rq].
+  - cbn [get_path]. now rewrite Hs, Hp.
+  - change (get_path (h' :: r :: rq) ?x)
+      with (match component meta x h' with Some c => get_path (r :: rq) c | None => None end).
+    unfold component. now rewrite Hs, Hp.
+Qed.
+
+Lemma put_v_absent k v ps : assoc_v k ps = None -> put_v k v ps = ps.
+Proof.
+  induction ps as [|[k' v'] t IH]; cbn; [reflexivity|].
+  destruct (String.eqb k' k); [discriminate|]. intro H. now rewrite IH.
+Qed.
+
+Lemma steps_of_set_steps_gen e l :
+  steps_of meta (set_steps meta e l) = l \/ set_steps meta e l = e.
+Proof.
+  destruct e as [cls ps]. unfold steps_of, set_steps, steps_param. cbn [cls_of params_of].
+  destruct (meta cls) as [[a sp]|] eqn:Em; [|right; reflexivity].
+  cbn [set_attr cls_of params_of]. rewrite Em.
+  destruct (assoc_v sp ps) as [v0|] eqn:E.
+  - left. rewrite assoc_v_put_same; congruence.
+  - right. now rewrite put_v_absent.
+Qed.
+
+Lemma get_path_set_steps_other e k c h' rq :
+  h' <> k -> is_steps_param meta (cls_of e) h' = false ->
+  get_path (h' :: rq) (set_steps meta e (put_e k c (steps_of meta e))) = get_path (h' :: rq) e.
+Proof.
+  intros Hne Hk. set (l := put_e k c (steps_of meta e)).
+  destruct (steps_of_set_steps_gen e l) as [Hs|Hs]; [|now rewrite Hs].
+  assert (Hp : assoc_v h' (params_of (set_steps meta e l)) = assoc_v h' (params_of e)).
+  { apply set_steps_params_other. congruence. }
+  assert (He : assoc_e h' (steps_of meta (set_steps meta e l)) = assoc_e h' (steps_of meta e)).
+  { rewrite Hs. unfold l. now apply assoc_e_put_other. }
+  destruct rq as [|r rq].
+  - cbn [get_path]. now rewrite He, Hp.
+  - change (get_path (h' :: r :: rq) ?x)
+      with (match component meta x h' with Some c => get_path (r :: rq) c | None => None end).
+    unfold component. now rewrite He, Hp.
+Qed.
+
+Lemma get_path_put_component_other e h c' h' rq :
+  h' <> h -> list_key (cls_of e) h = false -> list_key (cls_of e) h' = false ->
+  get_path (h' :: rq) (put_component meta e h c') = get_path (h' :: rq) e.
+Proof.
+  intros Hne Hh Hh'. unfold put_component. destruct (assoc_v h (params_of e)).
+  - apply get_path_set_attr_other; [exact Hne|now apply list_key_steps_param].
+  - apply get_path_set_steps_other; [exact Hne|now apply list_key_steps_param].
+Qed.
+
+Theorem set_preserves_other_keys : forall (p q : list string) e v e',
+  set_params meta e [(p, v)] = Ok e' -> indep p q e -> get_path q e' = get_path q e.
+Proof.
+  induction p as [|h rp IH]; intros q e v e' Hset Hind; [destruct Hind|].
+  destruct q as [|h' rq]; [destruct Hind|]. cbn [indep] in Hind.
+  destruct (String.eqb h h') eqn:Eh.
+  - (* same component, both keys go below it *)
+    apply String.eqb_eq in Eh. subst h'. destruct Hind as [Hrp [Hrq Hc]].
+    destruct rp as [|r rp]; [congruence|]. destruct rq as [|r' rq]; [congruence|].
+    rewrite set_single_nested in Hset.
+    destruct (smem h (valid_heads meta e)); [|discriminate].
+    destruct (component meta e h) as [c|] eqn:Ec; [|destruct Hc].
+    destruct (set_params meta c [(r :: rp, v)]) as [c'|] eqn:Es; [|discriminate].
+    injection Hset as <-.
+    change (get_path (h :: r' :: rq) ?x)
+      with (match component meta x h with Some c0 => get_path (r' :: rq) c0 | None => None end).
+    rewrite (component_put e h c c' Ec), Ec. exact (IH (r' :: rq) c v c' Es Hc).
+  - apply String.eqb_neq in Eh. destruct Hind as [Hh Hh'].
+    assert (Hne : h' <> h) by congruence.
+    destruct rp as [|r rp].
+    + (* a flat assignment that is not the component list *)
+      rewrite set_single_flat in Hset. unfold list_key in Hh.
+      destruct (meta (cls_of e)) as [[akey sp]|] eqn:Em.
+      * rewrite orb_false_iff in Hh. destruct Hh as [Ha Hsp]. rewrite Ha in Hset.
+        destruct (smem h (step_names meta e)).
+        -- destruct v as [a|c|l]; try discriminate. injection Hset as <-.
+           apply get_path_set_steps_other; [exact Hne|]. apply list_key_steps_param. exact Hh'.
+        -- destruct (smem h (valid_heads meta e)); [|discriminate]. injection Hset as <-.
+           apply get_path_set_attr_other; [exact Hne|].
+           unfold is_steps_param, steps_param. now rewrite Em.
+      * destruct (smem h (valid_heads meta e)); [|discriminate]. injection Hset as <-.
+        apply get_path_set_attr_other; [exact Hne|].
+        unfold is_steps_param, steps_param. now rewrite Em.
+    + rewrite set_single_nested in Hset.
+      destruct (smem h (valid_heads meta e)); [|discriminate].
+      destruct (component meta e h) as [c|] eqn:Ec; [|discriminate].
+      destruct (set_params meta c [(r :: rp, v)]) as [c'|] eqn:Es; [|discriminate].
+      injection Hset as <-. now apply get_path_put_component_other.
+Qed.
+
+(* ------------------------------------------------------------------ unknown names are rejected *)
+Theorem unknown_flat_rejected e k v :
+  ~ In k (param_names e) -> ~ In k (step_names meta e) ->
+  (forall a sp, meta (cls_of e) = Some (a, sp) -> k <> a) ->
+  set_params meta e [([k], v)] = Err.
+Proof.
+  intros Hp Hs Ha. rewrite set_single_flat.
+  assert (Hv : smem k (valid_heads meta e) = false).
+  { destruct (smem k (valid_heads meta e)) eqn:E; [|reflexivity].
+    apply smem_In, In_valid_heads in E. tauto. }
+  assert (Hsn : smem k (step_names meta e) = false).
+  { destruct (smem k (step_names meta e)) eqn:E; [|reflexivity]. apply smem_In in E. tauto. }
+  destruct (meta (cls_of e)) as [[akey sp]|] eqn:Em.
+  - assert (Hk : String.eqb akey k = false).
+    { apply String.eqb_neq. intro Heq. exact (Ha akey sp eq_refl (eq_sym Heq)). }
+    now rewrite Hk, Hsn, Hv.
+  - now rewrite Hv.
+Qed.
+
+Theorem unknown_head_rejected e h r rest v :
+  ~ In h (param_names e) -> ~ In h (step_names meta e) ->
+  set_params meta e [(h :: r :: rest, v)] = Err.
+Proof.
+  intros Hp Hs. rewrite set_single_nested.
+  destruct (smem h (valid_heads meta e)) eqn:E; [|reflexivity].
+  apply smem_In, In_valid_heads in E. tauto.
+Qed.
+
+(* ... at any depth: a rejection below a component is a rejection of the whole call *)
+Theorem unknown_nested_rejected e h c r rest v :
+  component meta e h = Some c -> set_params meta c [(r :: rest, v)] = Err ->
+  set_params meta e [(h :: r :: rest, v)] = Err.
+Proof.
+  intros Hc Hs. rewrite set_single_nested, Hc, Hs.
+  destruct (smem h (valid_heads meta e)); reflexivity.
+Qed.
+
+(* a key below something that is not an estimator is rejected *)
+Theorem nested_below_non_estimator_rejected e h r rest v :
+  component meta e h = None -> set_params meta e [(h :: r :: rest, v)] = Err.
+Proof.
+  intro Hc. rewrite set_single_nested, Hc. destruct (smem h (valid_heads meta e)); reflexivity.
+Qed.
+
+(* ------------------------------------------------------------------ replacing a component by name *)
+Theorem replace_component_by_name e n c :
+  In n (step_names meta e) ->
+  (forall a sp, meta (cls_of e) = Some (a, sp) -> n <> a) ->
+  set_params meta e [([n], VEst c)] = Ok (set_steps meta e (put_e n c (steps_of meta e))).
+Proof.
+  intros Hin Ha. rewrite set_single_flat. apply smem_In in Hin.
+  destruct (meta (cls_of e)) as [[akey sp]|] eqn:Em.
+  - assert (Hk : String.eqb akey n = false).
+    { apply String.eqb_neq. intro Heq. exact (Ha akey sp eq_refl (eq_sym Heq)). }
+    now rewrite Hk, Hin.
+  - unfold step_names, steps_of, steps_param in Hin. rewrite Em in Hin. discriminate.
+Qed.
+
+Theorem replaced_component_is_read_back e n c :
+  In n (step_names meta e) ->
+  assoc_e n (steps_of meta (set_steps meta e (put_e n c (steps_of meta e)))) = Some c /\
+  step_names meta (set_steps meta e (put_e n c (steps_of meta e))) = step_names meta e /\
+  (forall n', n' <> n ->
+     assoc_e n' (steps_of meta (set_steps meta e (put_e n c (steps_of meta e)))) =
+     assoc_e n' (steps_of meta e)).
+Proof.
+  intro Hin.
+  assert (Hne : steps_of meta e <> []).
+  { unfold step_names in Hin. destruct (steps_of meta e); [destruct Hin|congruence]. }
+  rewrite steps_of_set_steps by exact Hne. unfold step_names. rewrite steps_of_set_steps by exact Hne.
+  split; [|split].
+  - apply assoc_e_put_same. apply assoc_e_In_names. exact Hin.
+  - apply map_fst_put_e.
+  - intros n' Hn. now apply assoc_e_put_other.
+Qed.
+
+(* ------------------------------------------------------------------ documented order of one call *)
+(* One call carrying the whole component list, a replacement for one of ITS components and a
+   parameter of THAT component - in any of the six dict orders - acts like three calls in the order
+   whole list -> component -> component parameter. *)
+Section Order.
+  Variables (e : est) (sp n k : string) (L : list (string * est)) (c : est) (v : value).
+  Hypothesis Hmeta : meta (cls_of e) = Some (sp, sp).
+  Hypothesis Hsp : In sp (param_names e).
+  Hypothesis Hn : In n (map fst L).
+  Hypothesis Hnsp : n <> sp.
+
+  Let e1 := set_steps meta e L.
+  Let e2 := set_steps meta e1 (put_e n c (steps_of meta e1)).
+  Let kL : kv := ([sp], VSteps L).
+  Let kC : kv := ([n], VEst c).
+  Let kP : kv := ([n; k], v).
+
+  Lemma order_steps_e1 : steps_of meta e1 = L.
+  Proof.
+    unfold e1. destruct e as [cls ps]. unfold steps_of, set_steps, steps_param. cbn [cls_of] in *.
+    rewrite Hmeta. cbn [set_attr cls_of params_of]. rewrite Hmeta.
+    rewrite assoc_v_put_same; [reflexivity|]. apply assoc_v_In_names. exact Hsp.
+  Qed.
+
+  Lemma order_first : set_params meta e [kL] = Ok e1.
+  Proof. unfold kL. rewrite set_single_flat, Hmeta, String.eqb_refl. reflexivity. Qed.
+
+  Lemma order_second : set_params meta e1 [kC] = Ok e2.
+  Proof.
+    unfold kC. rewrite set_single_flat. unfold e1 at 1. rewrite cls_of_set_steps, Hmeta.
+    assert (Hk : String.eqb sp n = false) by (apply String.eqb_neq; congruence). rewrite Hk.
+    unfold step_names, e2. rewrite order_steps_e1. apply smem_In in Hn. rewrite Hn. reflexivity.
+  Qed.
+
+  Lemma order_any (kvs : list kv) :
+    lookup [sp] kvs = Some (VSteps L) ->
+    filter (fun x : kv => negb (path_eqb (fst x) [sp])) kvs = [kC; kP] \/
+    filter (fun x : kv => negb (path_eqb (fst x) [sp])) kvs = [kP; kC] ->
+    max_len kvs = 2%nat ->
+    set_params meta e kvs = set_params meta e2 [kP].
+  Proof.
+    intros Hl Hf Hm. unfold set_params at 1. rewrite Hm, set_params_fuel_S.
+    unfold meta_step1. rewrite Hmeta, Hl. fold e1.
+    assert (Hs2 : forall rest, rest = [kC; kP] \/ rest = [kP; kC] ->
+                  meta_step2 meta e1 rest = Ok (e2, [kP])).
+    { intros rest Hr. unfold meta_step2. unfold e1 at 1. rewrite cls_of_set_steps, Hmeta.
+      unfold step_names. rewrite order_steps_e1. apply smem_In in Hn.
+      unfold e2. rewrite order_steps_e1.
+      destruct Hr as [-> | ->]; unfold kC, kP; cbn [fold_left is_flat fst head_of snd andb app];
+        rewrite Hn; cbn [andb app]; try rewrite order_steps_e1; reflexivity. }
+    match goal with |- context [meta_step2 meta e1 ?r] => rewrite (Hs2 r Hf) end.
+    unfold set_params. unfold kP at 2. rewrite max_len_single. reflexivity.
+  Qed.
+
+  Theorem order_list_component_param :
+    forall kvs, In kvs [[kL; kC; kP]; [kL; kP; kC]; [kC; kL; kP]; [kC; kP; kL]; [kP; kL; kC]; [kP; kC; kL]] ->
+    set_params meta e kvs = set_params meta e2 [kP].
+  Proof.
+    assert (Hk : String.eqb n sp = false) by (apply String.eqb_neq; congruence).
+    intros kvs Hin. apply order_any.
+    - cbn [In] in Hin. unfold kL, kC, kP in Hin.
+      repeat (destruct Hin as [<-|Hin]; [cbn [lookup path_eqb]; rewrite ?Hk, ?String.eqb_refl; reflexivity|]).
+      destruct Hin.
+    - cbn [In] in Hin. unfold kL, kC, kP in *.
+      repeat (destruct Hin as [<-|Hin];
+              [cbn [filter fst path_eqb negb]; rewrite ?Hk, ?String.eqb_refl; cbn [andb negb]; auto|]).
+      destruct Hin.
+    - cbn [In] in Hin. unfold kL, kC, kP in Hin.
+      repeat (destruct Hin as [<-|Hin]; [reflexivity|]). destruct Hin.
+  Qed.
+End Order.
+
+End WithMeta.
